@@ -40,6 +40,7 @@ type HSSpec struct {
 	Compress   bool  `json:"enable_compression"`
 	Policy     int   `json:"origin_policy"` // 0 default, 1 custom allow, 2 custom deny
 	Timeout    bool  `json:"handshake_timeout"`
+	Warm       bool  `json:"warm,omitempty"` // the Upgrader and the response-header map were used for another handshake first
 	RH         []KV  `json:"response_header,omitempty"`
 	RHNil      bool  `json:"response_header_nil"`
 	HijackFail bool  `json:"hijack_fails,omitempty"`
@@ -83,7 +84,40 @@ func hsExec(s core.Spec) core.Exec {
 	if sp.HijackFail {
 		w.HijackErr = errors.New("verif: hijack refused")
 	}
-	u := websocket.Upgrader{EnableCompression: sp.Compress}
+	var rh http.Header
+	sorted := append([]KV(nil), sp.RH...)
+	sort.SliceStable(sorted, func(i, j int) bool { return bytes.Compare(sorted[i].K, sorted[j].K) < 0 })
+	if !sp.RHNil {
+		rh = http.Header{}
+		for _, kv := range sorted {
+			rh[string(kv.K)] = append(rh[string(kv.K)], strs(kv.V)...)
+		}
+	}
+	u := websocket.Upgrader{}
+	if sp.Warm {
+		// the same Upgrader value (and the same response-header map) served another client first,
+		// under another configuration: nothing of that may carry over
+		u.EnableCompression = true
+		u.CheckOrigin = func(*http.Request) bool { return true }
+		var offers []string
+		for _, p := range sp.Protocol {
+			for _, tok := range strings.Split(string(p), ",") {
+				if tok = strings.TrimSpace(tok); tok != "" && !strings.ContainsAny(tok, "\" \t\r\n()<>@;:\\/[]?={}") {
+					offers = append(offers, tok)
+				}
+			}
+		}
+		offers = append(offers, "warm")
+		u.Subprotocols = offers
+		wr, _ := http.NewRequest("GET", "http://warm.example/", nil)
+		wr.Header = http.Header{"Connection": {"Upgrade"}, "Upgrade": {"websocket"}, "Sec-Websocket-Version": {"13"}, "Sec-Websocket-Key": {"dGhlIHNhbXBsZSBub25jZQ=="},
+			"Sec-Websocket-Protocol": {strings.Join(offers, ", ")}, "Sec-Websocket-Extensions": {"permessage-deflate"}}
+		if wc, werr := u.Upgrade(NewFakeRW(NewScriptConn(nil, 0, false)), wr, rh); werr == nil {
+			wc.Close()
+		}
+		u.Subprotocols, u.CheckOrigin = nil, nil
+	}
+	u.EnableCompression = sp.Compress
 	if !sp.SubNil {
 		u.Subprotocols = strs(sp.Subprotos)
 		if u.Subprotocols == nil {
@@ -98,15 +132,6 @@ func hsExec(s core.Spec) core.Exec {
 	}
 	if sp.Timeout {
 		u.HandshakeTimeout = time.Hour
-	}
-	var rh http.Header
-	sorted := append([]KV(nil), sp.RH...)
-	sort.SliceStable(sorted, func(i, j int) bool { return bytes.Compare(sorted[i].K, sorted[j].K) < 0 })
-	if !sp.RHNil {
-		rh = http.Header{}
-		for _, kv := range sorted {
-			rh[string(kv.K)] = append(rh[string(kv.K)], strs(kv.V)...)
-		}
 	}
 	c, err := u.Upgrade(w, r, rh)
 
@@ -372,6 +397,7 @@ func c12Gen(rng *rand.Rand, tier string) []core.Spec {
 			sp.Origin = []B{B(o)}
 		}
 		sp.Timeout = rng.Intn(2) == 0
+		sp.Warm = rng.Intn(3) == 0
 		sp.RH, sp.RHNil = genRH(rng)
 		if rng.Intn(25) == 0 {
 			sp.HijackFail = true
